@@ -266,3 +266,84 @@ func goTypedFamily(c *vh.Ctx, prop string) {
 		}
 	}
 }
+
+// qmCases: null values and constant strings that contain question marks without being variables ("a?", "a??",
+// "a?b": a variable starts with '?'), as pattern constants and message values, with the keys they sit under present,
+// absent and null in the message.
+func qmCases() []matchCase {
+	ps := &jgen.Spec{Atoms: []interface{}{nil, "a?", "a??", "a"}, Vars: []string{"?x", "??o"}, Keys: []string{"a", "b"}, MaxArr: 2}
+	ms := &jgen.Spec{Atoms: []interface{}{nil, "a?", "a??", "a"}, Keys: []string{"a", "b"}, MaxArr: 2}
+	msgs := ms.UpTo(3)
+	var out []matchCase
+	for _, p := range ps.UpTo(3) {
+		for _, m := range msgs {
+			out = append(out, matchCase{P: p, M: m, B: M{}})
+		}
+	}
+	// nested, and with a bound variable
+	for _, v := range []interface{}{nil, "a?", "a"} {
+		for _, w := range []interface{}{nil, "a?", "a", M{}, []interface{}{}} {
+			out = append(out,
+				matchCase{P: M{"a": M{"a": v, "b": "?x"}}, M: M{"a": M{"a": w, "b": "z"}}, B: M{}},
+				matchCase{P: M{"a": M{"a": v, "b": "?x"}}, M: M{"a": M{"b": "z"}}, B: M{}},
+				matchCase{P: []interface{}{M{"a": v}}, M: []interface{}{M{"a": w}, M{"b": w}}, B: M{}},
+				matchCase{P: M{"a": "?x"}, M: M{"a": w}, B: M{"?x": v}},
+				matchCase{P: M{"a": "?x", "b": "?x"}, M: M{"a": v, "b": w}, B: M{}},
+				matchCase{P: M{"?k": v}, M: M{"p": w, "q": v}, B: M{}},
+			)
+		}
+	}
+	return out
+}
+
+// multiSetCases: map patterns in which two or three properties each admit several candidates (an array with a
+// variable, an array with a structured element, a property variable), so that several candidate binding sets are
+// alive and each gives several extensions: the result is the full product.
+func multiSetCases() []matchCase {
+	parts := []struct{ p, m interface{} }{
+		{[]interface{}{"?V"}, []interface{}{1.0, 2.0}},
+		{[]interface{}{"?V"}, []interface{}{1.0, 2.0, 3.0}},
+		{[]interface{}{M{"k": "?V"}}, []interface{}{M{"k": 1.0}, M{"k": 2.0}}},
+		{M{"?V": "v"}, M{"p": "v", "q": "v", "r": "w"}},
+		{[]interface{}{"?V", "c"}, []interface{}{"c", 1.0, 2.0}},
+		{"?V", 7.0},
+	}
+	inst := func(x interface{}, name string) interface{} {
+		var f func(x interface{}) interface{}
+		f = func(x interface{}) interface{} {
+			switch v := x.(type) {
+			case string:
+				if v == "?V" {
+					return name
+				}
+			case []interface{}:
+				var o []interface{}
+				for _, e := range v {
+					o = append(o, f(e))
+				}
+				return o
+			case map[string]interface{}:
+				o := M{}
+				for k, e := range v {
+					if k == "?V" {
+						k = name
+					}
+					o[k] = f(e)
+				}
+				return o
+			}
+			return x
+		}
+		return f(x)
+	}
+	var out []matchCase
+	for _, a := range parts {
+		for _, b := range parts {
+			out = append(out, matchCase{P: M{"a": inst(a.p, "?x"), "b": inst(b.p, "?y")}, M: M{"a": a.m, "b": b.m, "other": 1.0}, B: M{}})
+			for _, c3 := range parts[:3] {
+				out = append(out, matchCase{P: M{"a": inst(a.p, "?x"), "b": inst(b.p, "?y"), "c": inst(c3.p, "?z")}, M: M{"a": a.m, "b": b.m, "c": c3.m}, B: M{}})
+			}
+		}
+	}
+	return out
+}
